@@ -262,8 +262,8 @@ pub fn contract_decode_symbol<R: crate::bit_reader::ReadBits>(bit_reader: &mut R
     kani::assume(s <= 19);
     Ok(s)
 }
-fn dyn_header_post(hlit_field: u32, hdist_field: u32) {
-    const ITEMS: usize = 6;
+fn dyn_header_post(hlit_field: u32, hdist_field: u32) { dyn_header_post_n::<6>(hlit_field, hdist_field) }
+fn dyn_header_post_n<const ITEMS: usize>(hlit_field: u32, hdist_field: u32) {
     // HLIT / HDIST scripted (concrete table size per instance), HCLEN, the code-length code and every item symbolic;
     // read budget: 3 count fields + up to 19 code-length-code fields + ITEMS symbols with at most one extra field each
     let mut script = [(0u32, 0u8); 24];
@@ -311,6 +311,11 @@ macro_rules! k07e { ($name:ident, $hl:expr, $hd:expr) => {
 k07e!(k07e_dyn_header_read_post_257_1, 0, 0);
 k07e!(k07e_dyn_header_read_post_286_30, 29, 29);
 k07e!(k07e_dyn_header_read_post_288_32, 31, 31);
+kproof! {
+    #[kani::stub(crate::huffman_helper::calculate_huffman_code_tree, contract_code_tree)]
+    #[kani::stub(crate::huffman_helper::decode_symbol, contract_decode_symbol)]
+    fn k07e_dyn_header_read_post_more() { dyn_header_post_n::<10>(3, 7); }
+}
 
 // ---------------------------------------------------------------------------
 // K03h: the code lengths a dynamic block's reader AND writer build their codes from (get_literal_distance_lengths)
